@@ -1625,13 +1625,41 @@ func (f *frame) preciseMapObj(st *State, v Value) (*Object, *types.Map) {
 
 func (f *frame) mapUpdate(st *State, x *ssa.MapUpdate) {
 	it := f.it
-	o, mt := f.preciseMapObj(st, f.operand(st, x.Map))
+	mv := f.operand(st, x.Map)
+	o, mt := f.preciseMapObj(st, mv)
 	if o == nil {
+		// an opaque map: its contents are not modelled, but the update is still a store into that object,
+		// which ownership rules (who writes package-level memory) must see
+		report := func(p *Ptr) {
+			if p == nil || p.Obj == nil || it.Hooks.Store == nil {
+				return
+			}
+			wp := &Ptr{Obj: p.Obj, Path: p.Path + "{*}", Elem: nil}
+			it.Hooks.Store(st, x, wp, []CellKey{{Obj: p.Obj.ID, Path: wp.Path}}, f.operand(st, x.Value), false)
+		}
+		switch m := mv.(type) {
+		case *Ptr:
+			report(m)
+		case *Multi:
+			for _, a := range m.Alts {
+				if p, ok := a.(*Ptr); ok {
+					report(p)
+				}
+			}
+		default:
+			if it.Hooks.Store != nil {
+				it.Hooks.Store(st, x, nil, nil, f.operand(st, x.Value), false)
+			}
+		}
 		return
 	}
 	kp, ok := mapKeyPath(f.operand(st, x.Key))
 	if !ok {
 		st.SetCell(o, "#imprecise", NewConstBool(true))
+		if it.Hooks.Store != nil {
+			wp := &Ptr{Obj: o, Path: "{*}", Elem: mt.Elem()}
+			it.Hooks.Store(st, x, wp, []CellKey{{Obj: o.ID, Path: wp.Path}}, f.operand(st, x.Value), false)
+		}
 		return
 	}
 	p := &Ptr{Obj: o, Path: kp, Elem: mt.Elem()}
